@@ -11,9 +11,9 @@ EXTENDS Export
 NextSpineStageOf(s) == LET later == {x \in (s + 1)..Len(stages) : ~IsGlobalStage(x)} IN IF later = {} THEN 0 ELSE Min(later)
 ChildPtrs(ptr) ==
   IF ptr = <<1, 1>> \/ IsGlobalStage(ptr[1])
-  THEN LET cand == SelectSeq([x \in 1..Len(stages) |-> x],
-                             LAMBDA x : x > ptr[1] /\ (IsGlobalStage(x) \/ IsHeaderStage(x)) /\ stages[x][1].par = ptr)
-       IN Flat([j \in 1..Len(cand) |-> [i \in 1..Len(stages[cand[j]]) |-> <<cand[j], i>>]])
+  THEN \* global comments, the nodes of header lines, and exclusive interpretations inside later lines (new spines after '*+')
+       Flat([x \in 1..Len(stages) |-> IF x <= ptr[1] THEN <<>>
+                                       ELSE SelectSeq([i \in 1..Len(stages[x]) |-> <<x, i>>], LAMBDA q : stages[q[1]][q[2]].par = ptr)])
   ELSE LET ns == NextSpineStageOf(ptr[1]) IN
        IF ns = 0 THEN <<>>
        ELSE LET pos == SelectSeq([i \in 1..Len(stages[ns]) |-> i], LAMBDA i : stages[ns][i].par = ptr)
@@ -54,13 +54,28 @@ Monophonic == LET ls == Listing IN
               /\ KernSpineCount = 1
               /\ ~ \E j \in 1..Len(ls) : ls[j].cat = "CHORD"
               /\ \E j \in 1..Len(ls) : ls[j].cat = "NOTE_REST"
-SpineIds == LET h == HeaderStageIdx IN IF h = 0 THEN <<>> ELSE [i \in 1..Len(stages[h]) |-> i - 1]
+\* get_spine_ids: the spine id of every header token in listing order (one per spine; a later section or an added spine counts again)
+HeaderPtrs == SelectSeq(DfsOrder, LAMBDA q : At(q).cell.k = "hdr")
+SpineIds == LET hp == HeaderPtrs IN [j \in 1..Len(hp) |-> hp[j][2] - 1]
 \* spine_types(doc, headers): the header line of the projection on those types
 SpineTypes(allTypes, types) ==
   LET h == HeaderStageIdx IN
   IF h = 0 THEN <<>>
   ELSE LET hs == SelectSeq(stages[h], LAMBDA n : n.cell.t \in (IF allTypes THEN KnownHeaders ELSE types))
        IN [i \in 1..Len(hs) |-> hs[i].cell.t]
+
+(* ------------- small document queries (no listed property names them) ------------- *)
+\* get_spine_count / get_header_stage: the nodes of the LAST header line; get_leaves: the nodes of the last stage;
+\* get_first_measure: 1 when there is a measure; Document.match: same header texts in listing order (optionally core spines only)
+HeaderTexts == LET hp == HeaderPtrs IN [j \in 1..Len(hp) |-> At(hp[j]).cell.t]
+CoreHeaderTexts == SelectSeq(HeaderTexts, LAMBDA t : t \in {HKern, HMens})
+LastStageTexts == [i \in 1..Len(stages[Len(stages)]) |-> TokEncoding(stages[Len(stages)][i].cell)]
+\* Node.count_nodes_by_stage from the root: nodes per LEVEL of the tree (a global comment is one level below the previous one)
+RECURSIVE DepthOf(_)
+DepthOf(ptr) == IF ptr = <<1, 1>> THEN 0 ELSE 1 + DepthOf(At(ptr).par)
+LevelCounts == LET d == DfsOrder  depths == [j \in 1..Len(d) |-> DepthOf(d[j])]
+                   maxd == IF d = <<>> THEN 0 ELSE Max({depths[j] : j \in 1..Len(d)}) IN
+               [k \in 1..(maxd + 1) |-> IF k = 1 THEN 1 ELSE Cardinality({j \in 1..Len(d) : depths[j] = k - 1})]
 
 (* ------------- the signatures governing every note, in row-major order (C08) ------------- *)
 SigTextAt(p) == IF p = NoPtr THEN <<>> ELSE At(p).cell.t
